@@ -79,3 +79,20 @@ Theorem opus_fields_source_agree : forall toc fc,
 Proof. intros. split; reflexivity. Qed.
 Print Assumptions adts_to_raw_over_source_fields.
 Print Assumptions opus_fields_source_agree.
+
+(** language code packing and the H.264 NAL type test *)
+From Muxide Require Import Model.Codec.
+
+Theorem language_packing_source_agrees : forall l,
+  encode_language_code l =
+  (let c1 := match l with c :: _ => c | [] => 117 end in
+   let c2 := match l with _ :: c :: _ => c | _ => 110 end in
+   let c3 := match l with _ :: _ :: c :: _ => c | _ => 100 end in
+   be16 (language_packed_src (u16 c1) (u16 c2) (u16 c3))).
+Proof. intro l. reflexivity. Qed.
+
+Theorem h264_nal_type_source_agrees : forall b rest,
+  h264_nal_type (b :: rest) = h264_nal_type_src_a b /\ h264_nal_type (b :: rest) = h264_nal_type_src_b b.
+Proof. intros. split; reflexivity. Qed.
+Print Assumptions language_packing_source_agrees.
+Print Assumptions h264_nal_type_source_agrees.
